@@ -146,6 +146,24 @@ CLAIMS = {
         'note': 'struct trusted for value equality. Five genuine defects are known findings (four asymmetric pairs, one accumulation pinned by a test).',
         'technique': 'writer/reader layout-summary comparison + reaching-definition style purity rule (static)',
     },
+    'C03': {
+        'text': 'Writer summaries of the five buildPacket methods are compared with the specified ADU layouts; receive-side agreement is '
+                'decided by affine arithmetic on the summaries (advanceFrame consumes exactly the built packet length given the meaning '
+                'of the header length, getFrame starts at the function-code offset and ends before the check value, MBAP header parse '
+                'format/binding = build format/binding, populateResult copies the ids); the RTU length oracle (_rtu_frame_size, '
+                '_rtu_byte_count_pos, custom size functions) is compared with the spec layout of every class reachable through '
+                'lookupPduClass; transforms applied on send need an inverse on receive; checksum comparison shape and CRC constants.',
+        'note': 'Numerical correctness of computeCRC/computeLRC (hence the on-wire CRC byte order) and payload-content sweeps are not decided. Three known findings.',
+        'technique': 'wire-layout summaries + affine length arithmetic + declaration-vs-layout cross-check (static)',
+    },
+    'C14': {
+        'text': 'For every data-access request the affine form of get_response_pdu_size() is compared with 1 + the length of the encode '
+                'layout of the response class its execute() returns under the constructor binding; diagnostic predictions are compared '
+                'with the number of reply words per sub-function (Modbus-Plus statistics table const-folded); the per-framer overhead, '
+                'exception length, min_size and function-code peek tables are compared with the buildPacket layout summaries.',
+        'note': 'Assumes getValues(fc, a, n) returns n values; binary overhead exact only without delimiter escaping. Two known findings (Modbus Plus predictions).',
+        'technique': 'affine comparison of prediction functions with layout-summary lengths (static)',
+    },
 }
 
 _PENDING = 'check not built yet in this revision (planned, see DESIGN.md §2)'
